@@ -4,6 +4,7 @@ import (
 	"crypto/sha256"
 
 	sdk "github.com/cosmos/cosmos-sdk/types"
+	"github.com/ethereum/go-ethereum/common"
 
 	packetcontract "github.com/teleport-network/teleport/syscontracts/xibc_packet"
 	clienttypes "github.com/teleport-network/teleport/x/xibc/core/client/types"
@@ -79,7 +80,9 @@ func VerifC03RecvOutcome() {
 
 // VerifC03AckOutcome: on the source, the acknowledgement's code alone decides delivered (status 1) or refunded (status 2),
 // exactly one of them, followed by one fee payment and one callback.
-func VerifC03AckOutcome() {
+func VerifC03AckOutcome() { ackOutcome() }
+
+func ackOutcome() {
 	w := newXWorld(2 + rt.Tier())
 	msg := &packettypes.MsgAcknowledgement{Packet: rt.Bytes("packetBytes"), Acknowledgement: rt.Bytes("ackBytes"), ProofAcked: rt.Bytes("proof"),
 		ProofHeight: clienttypes.Height{RevisionNumber: rt.U64("rev"), RevisionHeight: rt.U64("height")}, Signer: rt.Str("signer")}
@@ -110,6 +113,13 @@ func VerifC03AckOutcome() {
 		rt.Reach("refunded")
 		rt.Assert("A1-refund-status", status == 2)
 	}
+	// the fee of exactly this packet goes to the Teleport account registered for the relayer named in the acknowledgement
+	fee := rt.CallArgs(abi, w.evm.calls[1].data)
+	isReg := rt.UFBool("relayerOnTeleportKnown", p.DstChain, ack.Relayer) // the registry's answers (uninterpreted, see newXWorld)
+	regd := rt.UFStr("relayerOnTeleport", p.DstChain, ack.Relayer)
+	acc, accErr := sdk.AccAddressFromBech32(regd)
+	rt.Assert("A1-fee-paid-for-this-packet-to-the-registered-relayer", len(fee) == 3 && fee[0].(string) == p.DstChain && fee[1].(uint64) == p.Sequence &&
+		isReg && accErr == nil && fee[2].(common.Address) == common.BytesToAddress(acc))
 	rt.Assert("A2-commitment-gone", !w.k.PacketKeeper.HasPacketCommitment(w.ctx, p.SrcChain, p.DstChain, p.Sequence))
 	cb := rt.CallArgs(abi, w.evm.calls[2].data)
 	rt.Assert("A3-callback-gets-this-packet-and-ack", len(cb) == 2 && cb[0].(packettypes.Packet).Sequence == p.Sequence && cb[0].(packettypes.Packet).DstChain == p.DstChain && cb[1].(packettypes.Acknowledgement).Code == ack.Code)
